@@ -13,6 +13,7 @@ class Leaf:
     s: str = ""
     o: Optional[float] = None
     k: int = 0
+    labels: List[str] = field(default_factory=list)
 
     def __repr__(self):
         return f"Leaf#{self.uid}"
